@@ -48,7 +48,8 @@ P = {
                  "C05_unsigned_rejected", "C05_modified_or_foreign_token_rejected", "C05_alg_confusion_rejected",
                  "C05_merge_precedence", "C05_algorithm_tables", "C05_claim_decoding", "C05_scope_matching",
                  "C05_accepted_scopes_satisfied", "C05_nonvacuous",
-                 "C05_cache_history_stateless", "C05_judged_statelessly_unfold", "C05_cache_history_spec", "C05_cache_pinned_history_stateless",
+                 "C05_cache_history_stateless", "C05_judged_statelessly_unfold", "C05_cache_history_spec", "C05_F6_refuted", "C05_cache_fixed_history_spec",
+                 "C05_cache_pinned_history_stateless",
                  "C05_F4_pinned_refuted", "C05_cache_transparent", "C05_cache_examples"],
     "streams": [{
         "name": "tokens", "pkg": "./internal/rules/mechanisms/authenticators", "test": "TestVerifC05",
@@ -58,8 +59,8 @@ P = {
     }, {
         "name": "keycache", "pkg": "./internal/rules/mechanisms/authenticators", "test": "TestVerifC05Cache",
         "overlay": {"internal/rules/mechanisms/authenticators/zz_verif_c05_test.go": "c05/c05_test.go"},
-        "eval_module": "Run.Eval_C05", "check_term": "check_hist true true true",
-        "n_quick": 500, "n_thorough": 12000, "findings": {1: "C05-F1", 2: "C05-F2", 3: "C05-F3", 4: "C05-F4", 5: "C05-F5"}, "shard": 150,
+        "eval_module": "Run.Eval_C05", "check_term": "check_hist true true true false",
+        "n_quick": 500, "n_thorough": 12000, "findings": {1: "C05-F1", 2: "C05-F2", 3: "C05-F3", 4: "C05-F4", 5: "C05-F5", 6: "C05-F6"}, "shard": 150,
     }],
     "rule": "a jwt authenticator created by the real type registry from a generated configuration (issuers, audience, scopes "
             "with exact/hierarchic/wildcard strategy, allowed_algorithms, validity_leeway incl. sub-second and negative, "
@@ -83,7 +84,8 @@ P = {
             "the histogram only); distinct by hash of the generated description (relative times). Second stream (keycache): "
             "histories of 2-4 requests against ONE authenticator (and rule-level copies with their own cache_ttl / algorithms) "
             "with the JWK cache on a real memory cache (cache.WithContext + memory.NewCache; cache_ttl default / 5m / 0s), "
-            "jwks_endpoint url templated with {{ .TokenIssuer }} in 85% (else one url for all issuers), 2-3 trusted tenants "
+            "the key-set request templated with {{ .TokenIssuer }} in the url (43%), in a header value by which the JWKS "
+            "service selects the key set (29%), in both (14%) or not at all (one key set for all issuers), 2-3 trusted tenants "
             "whose key sets share kids for different keys (sometimes the same key, duplicate kids), key sets rotating and "
             "endpoints failing between the requests; tokens signed with the tenant's own key, with the key ANOTHER tenant "
             "publishes under the same kid, with the rotated-out key, or an unpublished one, with and without kid; in 35% of the "
@@ -135,8 +137,9 @@ P = {
                   "changing in between) every answer equals the cache-less answer against the key set that is or was published at "
                   "the request's own rendered URL, the present one when the token has no kid or the cache is off - a cached key "
                   "is never reused for another url or kid, and a cached key is validated with the settings of the mechanism at hand "
-                  "(C05_cache_history_stateless/_spec/_transparent, for all histories; cache entries are keyed by rendered url, "
-                  "kid and configured cache_ttl). Claim decoding and the three scope matching "
+                  "(C05_cache_history_stateless/_spec/_transparent; cache entries are keyed by rendered url, kid and configured "
+                  "cache_ttl) - for histories without a template in a header only, and otherwise outside the open finding C05-F6; "
+                  "with the proposed repair for all histories (C05_cache_fixed_history_spec). Claim decoding and the three scope matching "
                   "strategies are proved equal to declarative relations stated in the specification (C05_claim_decoding, "
                   "C05_scope_matching). Two deviations found "
                   "by the model (exp <= 0 never expired; nbf/iat >= 2^63 wrapped to 'not set') were repaired by fix: commits "
@@ -145,8 +148,10 @@ P = {
                   "repaired by d20d7cd (C05-F4: a cached JWK was reused without validation by a mechanism that validates JWK "
                   "certificates after a laxer one sharing endpoint and cache had stored it; pinned: C05_cache_pinned_history_stateless, "
                   "C05_F4_pinned_refuted) and d55629a (C05-F5: with no issuers configured and metadata without issuer a token "
-                  "without iss was accepted; the model has the repair, C05_F5_fixed). One finding stays open with guard, witness "
-                  "and corpus replay: C05-F3 (exp = -62135596800, Go's zero time, still counts as absent). The model is tied to the code by running "
+                  "without iss was accepted; the model has the repair, C05_F5_fixed). Open, each with guard, witness and corpus "
+                  "replay: C05-F3 (exp = -62135596800, Go's zero time, still counts as absent) and C05-F6 (a {{ .TokenIssuer }} "
+                  "template in a jwks_endpoint HEADER does not reach the key-cache key, so issuers behind one url share entries "
+                  "per kid: cross-issuer forgery after the other issuer's key was cached; fixes/C05-F6.diff). The model is tied to the code by running "
                   "~1500 (quick) / 40000 (thorough) generated and mutated tokens and ~500 / 12000 request histories with a real "
                   "memory cache per run through the real authenticator against a local JWKS server.",
     "level_note": "Partial by construction: signature verification, JSON/JWS parsing and certificate validation are oracles (trusted "
@@ -159,7 +164,7 @@ P = {
                   "claims' is checked on the Go side (attributes deep-equal the sent payload) and has no theorem (the model has one "
                   "claims record per token, the statement would be true by construction, as 'subject id from the claims' is). Cache entry expiry, metadata_endpoint discovery with templates, custom "
                   "jwt_source and subject "
-                  "attribute templates are not exercised (metadata_endpoint with a fixed URL is). Open finding C05-F3 is printed as KNOWN-FINDING on every run; C05-F1, F2, F4, F5 are fixed (reverting any of the "
+                  "attribute templates are not exercised (metadata_endpoint with a fixed URL is). Open findings C05-F3 and C05-F6 are printed as KNOWN-FINDING on every run; C05-F1, F2, F4, F5 are fixed (reverting any of the "
                   "four commits is reported as VIOLATION with a replay). Reverting 8647e06 (cache_ttl in the cache key, C10-F5) is "
                   "reported as 'correspondence broken, no failing input': sharing entries between copies with different ttl is not "
                   "a C05 violation.",
